@@ -21,10 +21,10 @@ import (
 type conc struct {
 	w      *world
 	r      *rand.Rand
-	single map[int]*types.Transaction   // id -> T(id)
+	single map[int]*types.Transaction     // id -> T(id)
 	group  map[[2]int]*types.Transactions // (id, k) -> G(id, k)
-	blocks map[int]*cblock              // model block id -> concrete block
-	poolOf map[int]string               // id -> kind currently in the pool
+	blocks map[int]*cblock                // model block id -> concrete block
+	poolOf map[int]string                 // id -> kind currently in the pool
 	nonce  int64
 	last   *types.LightBlock // the last model light block delivered
 }
